@@ -568,7 +568,28 @@ def registration_verdict(build):
         t, n = got[0]
         if t not in want_table or n != want_name:
             return "binding %s is registered as %s[%r], the declaration makes it %s[%r]" % (lname, t, n, "/".join(want_table), want_name)
-    return None
+    # the other direction, from the declarations: every function wrapped for Lua has an entry under its C++ name (a free
+    # function in a module table, a method in its class's table), whether or not the generator made a binding for it
+    class_tables = set("l_%s_Reg" % c.name for c in [e_["cls"] for e_ in funcs.values() if e_["cls"] is not None])
+
+    def walk(n, cls=None):
+        for f in getattr(n, "functions", []):
+            if f._generated or not f.wrap.lua or f.ast.is_ctor() or f.ast.is_dtor():
+                continue
+            where = ["l_%s_Reg" % cls.name] if cls is not None else [t_ for t_ in tables if t_ not in class_tables]
+            if not any(f.ast.name in tables.get(t_, {}) for t_ in where):
+                return "%s%s is wrapped for Lua but no entry %r exists in %s" % (
+                    (cls.name + "::") if cls is not None else "", f.ast.name, f.ast.name, "/".join(where) or "any table")
+        for c in getattr(n, "classes", []):
+            r = walk(c, c)
+            if r:
+                return r
+        for s in getattr(n, "namespaces", []):
+            r = walk(s, None)
+            if r:
+                return r
+        return None
+    return walk(build.library)
 
 
 def metatable_verdict(extras):
